@@ -77,16 +77,16 @@ OFFkw   == <<79, 70, 70>>
    lexer's token): #H / #Q / #B in either case followed by digits of that radix *)
 NdDigit(b) == IF b \in 48..57 THEN b - 48 ELSE IF b \in 65..70 THEN b - 55 ELSE IF b \in 97..102 THEN b - 87 ELSE 99
 NdRadix(b) == IF b \in {72, 104} THEN 16 ELSE IF b \in {81, 113} THEN 8 ELSE IF b \in {66, 98} THEN 2 ELSE 0
-NonDecWF(lit) == /\ Len(lit) >= 3 /\ lit[1] = 35 /\ NdRadix(lit[2]) # 0
+NonDecWellFormed(lit) == /\ Len(lit) >= 3 /\ lit[1] = 35 /\ NdRadix(lit[2]) # 0
                  /\ \A i \in 3..Len(lit) : NdDigit(lit[i]) < NdRadix(lit[2])
 RECURSIVE NdFold(_, _, _, _)
 NdFold(lit, i, r, acc) == IF i > Len(lit) THEN acc
                           ELSE NdFold(lit, i + 1, r, Add(MulSmall(acc, r), NatOfInt(NdDigit(lit[i]))))
-NonDecVal(lit) == NdFold(lit, 3, NdRadix(lit[2]), <<>>)
+NonDecValue(lit) == NdFold(lit, 3, NdRadix(lit[2]), <<>>)
 
 IntOk(ty, kind, lit, val, obs) ==
     CASE kind = "num" -> IntFromDecimalOk(ty, lit, obs)
-      [] kind = "hex" -> LET v == IF NonDecWF(lit) THEN NonDecVal(lit) ELSE val IN
+      [] kind = "hex" -> LET v == IF NonDecWellFormed(lit) THEN NonDecValue(lit) ELSE val IN
                          IF InRange(ty, S(FALSE, v)) THEN obs.k = "ok" /\ ~obs.neg /\ obs.d = v
                          ELSE obs.k = "err" /\ obs.code = -222
       [] kind = "chr" -> IF Compare(MAXimum, lit) THEN obs.k = "ok" /\ S(obs.neg, obs.d) = MaxOf(ty)
